@@ -424,6 +424,71 @@ class ISD(model.Document):
       if style_prop in styles_to_be_computed:
         StyleProcessors.BY_STYLE_PROP[style_prop].compute(isd_parent, isd_element)
 
+  _RUBY_CHILDREN_PATTERNS = (
+    (model.Rb, model.Rt),
+    (model.Rb, model.Rp, model.Rt, model.Rp),
+    (model.Rbc, model.Rtc),
+    (model.Rbc, model.Rtc, model.Rtc)
+  )
+
+  @staticmethod
+  def _make_ruby_conformant(
+      isd: ISD,
+      isd_element: typing.Union[model.Ruby, model.Rtc],
+      children: typing.List[model.ContentElement]
+    ) -> typing.Tuple[typing.Optional[model.ContentElement], typing.List[model.ContentElement]]:
+    """Returns the element and children to use when some of the children of the ruby element or ruby text container
+    `isd_element` are not part of the ISD, e.g. because they are not temporally active, so that the remaining
+    children `children` no longer follow the patterns that the data model requires.
+    """
+
+    if isinstance(isd_element, model.Rtc):
+
+      rts = [c for c in children if isinstance(c, model.Rt)]
+
+      if len(children) == len(rts) + 2 and isinstance(children[0], model.Rp) and isinstance(children[-1], model.Rp):
+        return (isd_element, children)
+
+      # the delimiters are useful only as a pair
+
+      return (isd_element, rts)
+
+    if tuple(type(c) for c in children) in ISD._RUBY_CHILDREN_PATTERNS:
+      return (isd_element, children)
+
+    rb = next((c for c in children if isinstance(c, model.Rb)), None)
+    rt = next((c for c in children if isinstance(c, model.Rt)), None)
+    rbc = next((c for c in children if isinstance(c, model.Rbc)), None)
+    rtcs = [c for c in children if isinstance(c, model.Rtc)]
+
+    if rb is not None and rt is not None:
+      return (isd_element, [rb, rt])
+
+    if rbc is not None and len(rtcs) > 0:
+      return (isd_element, [rbc] + rtcs[:2])
+
+    # only the base text, if any, remains: it is presented as the contents of a span that takes the place of the ruby element
+
+    base_spans = []
+
+    for base in ([rb] if rb is not None else list(rbc) if rbc is not None else []):
+      spans = list(base)
+      base.remove_children()
+      base_spans.extend(spans)
+
+    if len(base_spans) == 0:
+      return (None, [])
+
+    span = model.Span(isd)
+    span.set_id(isd_element.get_id())
+    span.set_lang(isd_element.get_lang())
+    span.set_space(isd_element.get_space())
+
+    for style_prop in isd_element.iter_styles():
+      span.set_style(style_prop, isd_element.get_style(style_prop))
+
+    return (span, base_spans)
+
   @staticmethod
   def _process_element(
       interval_cache,
@@ -647,6 +712,15 @@ class ISD(model.Document):
 
         if isd_element_child is not None:
           isd_element_children.append(isd_element_child)
+
+    if isinstance(isd_element, (model.Ruby, model.Rtc)):
+
+      # some children of the ruby element or ruby text container may have been pruned
+
+      isd_element, isd_element_children = ISD._make_ruby_conformant(isd, isd_element, isd_element_children)
+
+      if isd_element is None:
+        return None
 
     if len(isd_element_children) > 0:
       isd_element.push_children(isd_element_children)
